@@ -391,10 +391,16 @@ func (o *op) describe() string {
 	return d
 }
 
+// extraHeader makes the client send the optional Content-Type header as well (set per script).
+var extraHeader bool
+
 func frameOf(v any) []byte {
 	b, err := json.Marshal(v)
 	if err != nil {
 		panic(err)
+	}
+	if extraHeader {
+		return []byte(fmt.Sprintf("Content-Type: application/vscode-jsonrpc; charset=utf-8\r\nContent-Length: %d\r\n\r\n%s", len(b), b))
 	}
 	return []byte(fmt.Sprintf("Content-Length: %d\r\n\r\n%s", len(b), b))
 }
@@ -528,6 +534,17 @@ var lexLines = []string{
 	"error: /e/ (space)",
 	"ws: /[ \\t]*/ (space)",
 	"idx: /{letter}+/",
+	"badre1: /[a-/",
+	"badre2: /\\p{Foo}+/",
+	"badre3: /a{3,2}/",
+	"badre4: /(abc/",
+	"badre5: /a**/",
+	"dupname: /x/",
+	"dupname: /y/",
+	"neg: /[^\\x00-\\U0010ffff]/",
+	"<undefState> st1: /q/",
+	"brackets: /\\(/ (class)",
+	"%brackets '(' ')';",
 }
 
 var parseLines = []string{
@@ -552,6 +569,25 @@ var parseLines = []string{
 	"'π' : ;",
 	"optuser: item itemopt ident identopt exprmain expropt ;",
 	"manyopt: ident? num? '+'? '-'? '('? ')'? ';'? 'π'? str? ident ;",
+	"%assert empty set(first item & first item2);",
+	"%assert nonempty set(first undefinedThing);",
+	"%left '+' '+';",
+	"%right undefinedTok;",
+	"use2: tpl<+B> tpl<A: C> ;",
+	"inline inl: ident num ;",
+	"inline inl: num ;",
+	"la2: (?= !undefinedLa) ident | (?= item & !item2) num ;",
+	"prec1: ident %prec undefinedPrec | num %prec '+' ;",
+	"rep: ident{a} ident{a} { $a $b ${left().offset} } ;",
+	"%inject comment -> Comment;",
+	"%inject undefinedTok2 -> Foo/Bar,Baz;",
+	"arrow -> Arrow/Flag1,Flag1: ident -> Sub/Flag1 ;",
+	"%interface Arrow, Item;",
+	"%expect 3;",
+	"%generate afterIdent = set(follow ident);",
+	"%flag A = 5;",
+	"%lookahead flag LF = true;",
+	"%input root no-eoi, item;",
 	"exprmain: expr expropt ;",
 	"bad1: ident '😀😀z' num ;",
 	"bad2: \"é😀\" '𝒳' ident ;",
@@ -713,6 +749,16 @@ func genDoc(src *sim.Src, prev string) string {
 			}
 		}
 	}
+	if f.Chance(1, 150) && len(text) > 0 {
+		// a big document: frames far larger than any I/O buffer on the way
+		lines := strings.SplitAfter(text, "\n")
+		var bb strings.Builder
+		bb.WriteString(text)
+		for bb.Len() < 90<<10 {
+			bb.WriteString(lines[f.Draw(len(lines))])
+		}
+		return bb.String()
+	}
 	if len(text) > 6<<10 {
 		text = text[:6<<10]
 		for !utf8.ValidString(text) {
@@ -750,6 +796,7 @@ type modelDoc struct {
 
 func genScript(src *sim.Src) *script {
 	sc := &script{calls: map[string]*op{}}
+	extraHeader = src.Chance(1, 5)
 	docs := map[string]*modelDoc{}
 	lastText := map[string]string{}
 	nextID := 1
